@@ -1350,6 +1350,13 @@ def stream_docs_through_lean(chk, xdocs):
     chk.cov['xval_stream_documents'] = len(kept)
 
 
+RACES = {'n_rps': 2, 'setup_ops': 14, 'existing_consumer_bias': 0.3, 'empty_bias': 0.1, 'model': False, 'p_new_names': 0.7,
+         'setup_weights': {'rp_delete': 0, 'rc_rename': 0, 'rc_delete': 0, 'trait_delete': 0},
+         'race_kinds': {'alloc_put': 8, 'alloc_post': 4, 'reshape': 2, 'aggs_set': 3, 'rp_traits_set': 2, 'inv_set': 1,
+                        'rp_create': 2, 'trait_put': 1, 'rc_put': 1},
+         'p_three': 0.05}
+
+
 def run(chk):
     thorough = chk.tier == 'thorough'
     ok = True
@@ -1381,6 +1388,11 @@ def run(chk):
         chk.notes.append('stream documents not cross-validated: %s' % str(e)[:400])
         if ok:
             raise
+    # stage 4: VALID requests racing (every interleaving at transaction granularity): judged only on "no 5xx, and the
+    # request terminates".  Records created on first use (projects, users, consumer types, consumers, aggregates,
+    # custom names) are looked up and then inserted; the request that loses such a race must not answer 500.
+    from harness import conc
+    conc.run_races(chk, ['C15'], 96 if not thorough else 1500, 80 if not thorough else 400, RACES)
     chk.cov['exhaustive'] = False
     chk.cov['rule'] = (
         'stage 2: per schema of placement.schemas.* 1 valid document in 4 (type-directed) and 3 grammar mutants in 4 '
